@@ -73,7 +73,7 @@ static void sweep_case(long item)
                 else { size_t fn = valid_arg(f, AF[a].type, AF[a].size); memcpy(args + n, f, fn); n += fn; }
         }
         snprintf(ARG_NOTE, sizeof ARG_NOTE, "sweep: %s of data_size %zu at argument position %d, decoded length %ld, variant %d", is_str ? "string" : "hex buffer", size, pos + 1, L, variant);
-        ARG_CAP_HINT = chance(30) ? n + 1 + rn(3) : 0;          /* a third of the lines on a command capacity that just holds the arguments */
+        ARG_CAP_HINT = chance(30) ? n + rn(4) : 0;          /* a third of the lines on a command capacity that just holds the arguments, or is one byte short of that */
         struct cat_command *c = args_world(nv, chance(70), chance(30), chance(50));
         args_run_and_judge(c, args, n, "C05");
         nontrivial(hash_bytes(args, n, hash_u64((uint64_t)(size * 16 + (size_t)pos * 2 + is_str), 5)));
@@ -102,7 +102,7 @@ static void random_case(void)
         }
         if (chance(3)) args[n++] = ',';
         snprintf(ARG_NOTE, sizeof ARG_NOTE, "random: %d variable(s), %u argument(s)", nv, nargs);
-        ARG_CAP_HINT = chance(30) ? n + 1 + rn(3) : 0;          /* a third of the lines on a command capacity that just holds the arguments */
+        ARG_CAP_HINT = chance(30) ? n + rn(4) : 0;          /* a third of the lines on a command capacity that just holds the arguments, or is one byte short of that */
         struct cat_command *c = args_world(nv, chance(70), chance(30), chance(50));
         args_run_and_judge(c, args, n, "C05");
         uint64_t h = hash_bytes(args, n, 50); for (int j = 0; j < nv; j++) h = hash_u64((uint64_t)(AF[j].type * 100 + (int)AF[j].size), h);
